@@ -11,7 +11,7 @@
   ---------------------------------------------------------------------------------
   request(1)? < 1 → none ; slice()[0] ; advance(1)                takeOptU8      (Source::take_u8 / take_opt_u8)
   request(i+1)? <= i → none ; slice()[i]                          peekAt i       (Tag::take_from_if)
-  request(2)? ; slice().first() ; slice().get(1)                  peek2          (Integer::check_head)
+  n = request(2)? ; slice().first() ; slice().get(1)              peek2          (Integer::check_head; returns min(n,2) too)
   request(n)? >= n                                                need n         (skip_all, take_all, slice_all, skip_opt, exhausted)
   bytes(0,n) ; advance(n)        (after need n)                   takeN n        (LimitedSource::take_all)
   advance(n)                     (after need n)                   skipN n        (LimitedSource::skip_all, with_slice_all, skip_opt)
@@ -42,7 +42,7 @@ deriving Repr
 inductive Resp
   | unit
   | byte (b : Option UInt8)
-  | byte2 (a b : Option UInt8)
+  | peek (n : Nat) (a b : Option UInt8)
   | bool (b : Bool)
   | bytes (bs : Bytes)
   | lim (l : Option Nat)
@@ -70,8 +70,8 @@ def takeOptU8 : Prog (Option UInt8) :=
   .op .takeOptU8 fun | .byte b => .ret b | _ => .fail (.panic "resp")
 def peekAt (i : Nat) : Prog (Option UInt8) :=
   .op (.peekAt i) fun | .byte b => .ret b | _ => .fail (.panic "resp")
-def peek2 : Prog (Option UInt8 × Option UInt8) :=
-  .op .peek2 fun | .byte2 a b => .ret (a, b) | _ => .fail (.panic "resp")
+def peek2 : Prog (Nat × Option UInt8 × Option UInt8) :=
+  .op .peek2 fun | .peek n a b => .ret (n, a, b) | _ => .fail (.panic "resp")
 def need (n : Nat) : Prog Bool :=
   .op (.need n) fun | .bool b => .ret b | _ => .fail (.panic "resp")
 def takeN (n : Nat) : Prog Bytes :=
@@ -156,7 +156,7 @@ def stepG (s : G) : Op → Res (Resp × G)
       | .ok s' => .ok (.byte (some b), s')
       | .error e => .error e
   | .peekAt i => let s := s.request (i + 1); .ok (.byte s.view[i]?, s)
-  | .peek2 => let s := s.request 2; .ok (.byte2 s.view[0]? s.view[1]?, s)
+  | .peek2 => let s := s.request 2; .ok (.peek (min 2 s.view.length) s.view[0]? s.view[1]?, s)
   | .need n => let s := s.request n; .ok (.bool (decide (n ≤ s.view.length)), s)
   | .takeN n =>
     if s.view.length < n then .error (.panic "bytes past limit or data")
